@@ -140,6 +140,7 @@ def py_operand(o):
 
 
 _OBJVIA = ["direct"]
+_RAVIA = ["rows"]
 
 
 def mk_obj(obj):
@@ -165,7 +166,14 @@ def mk_obj(obj):
             m = np.array(stored, dtype=DT2NP[obj[1]]).reshape(len(stored), len(stored[0]) if stored else 0)
             r = RunLength2dArray.from_array(m)
         else:
-            r = RunLengthRaggedArray.from_ragged_array(RaggedArray(stored, dtype=DT2NP[obj[1]]))
+            if _RAVIA[0] != "rows":             # the ragged input itself realised as a derived / still pending array (exec_ragged.build)
+                enc_rows = obj[2]
+                n = len(enc_rows)
+                st_enc = enc_rows[::-1] if via == "rev" else [enc_rows[-1]] + enc_rows if via == "tail" else \
+                    [enc_rows[i] for i in (list(range(1, n)) + [0])] if (via == "perm" and n >= 2) else enc_rows + [enc_rows[0]] if via == "mask" else enc_rows
+                r = RunLengthRaggedArray.from_ragged_array(ER.build([obj[1], st_enc], _RAVIA[0]))
+            else:
+                r = RunLengthRaggedArray.from_ragged_array(RaggedArray(stored, dtype=DT2NP[obj[1]]))
         return r if sel is None else r[sel]
     if k == "intervals":
         return RunLength2dArray.from_intervals(np.array(obj[1], dtype=int), np.array(obj[2], dtype=int), int(obj[3]))
@@ -395,6 +403,7 @@ def execute(case, opts=None):
     del _SOURCES[:]
     _WIDE[0] = False
     _OBJVIA[0] = o.get("objvia", "direct")
+    _RAVIA[0] = o.get("ravia", "rows")
     mode = hi_ok(case) if o.get("hi") else None
     ER._HI[0] = int(o["hi"]) if mode else 0
     ER._HI_KEEP[0] = mode == "keep"
